@@ -166,7 +166,8 @@ def check(case):
     kappa0 = onp.asarray(o.constraintKappa)
     o.reset_kappa()
     o.lam = np.array(case['lam0'])
-    o.p = Objective.Params(np.array(coef['b']) * 0.9, np.array(cvec), np.array(coef['design'])) if s['warm'] else p
+    # the objective always arrives holding the parameters of a previous load step
+    o.p = Objective.Params(np.array(coef['b']) * 0.9 + 0.05 * coef['scale'], np.array(cvec), np.array(coef['design']))
     tol = 10.0 ** s['tol_exp'] * max(coef['scale'], 1.0)
     al = AlSolver.get_settings(penalty_scaling=s['pen'], target_constraint_decrease_factor=s['dec'], use_second_order_update=s['second'],
                                num_initial_low_order_iterations=s['nlow'], tol=tol, max_al_iters=60)
